@@ -1,5 +1,6 @@
 (* Property C13 - html_attrs and Python-passed slot content emit exactly the data given, escaped.
-   Only statements here; proofs live in Attrs/Proofs.v.  Model: Attrs/Model.v. *)
+   Only statements here; proofs live in Attrs/Proofs.v.  Model: Attrs/Model.v (the code as of the fix commits
+   e6d6b5a, 30be467, c3ea7ff).  A dictionary is a list of ((name text, key is a SafeString), value). *)
 From DJC Require Import Lib.Base Attrs.Model Attrs.Proofs.
 
 (* ---------- attributes: what is emitted reads back as exactly what was given ---------- *)
@@ -9,58 +10,114 @@ Theorem reader_undoes_escape : forall s, decode (escape s) = s.
 Proof. exact decode_escape. Qed.
 Print Assumptions reader_undoes_escape.
 
-(* ROUND TRIP, for ALL value strings: if every attribute that is emitted has a name that can be written as
-   an HTML attribute name and a value that is not marked safe, the HTML attribute tokenizer reads the emitted
-   text back as exactly the given names (ASCII-lower-cased, as HTML reads names) and values, in order, each
-   once; None / False attributes are absent, True attributes are bare.  Nothing ends the tag early and no
-   quoted value is left open (the result is [Parsed], not [BrokeOut] / [Unterminated]).
-   _partial: the statement says "whatever characters the names contain"; for names outside [valid_name]
-   it is false for the current code (next theorem) - reported as a defect, see DESIGN section 11. *)
-Theorem attrs_roundtrip_partial : forall d,
-  roundtrip_guard d = true -> parse_attrs (attributes_to_string d) = Parsed (expected d).
-Proof. exact attrs_roundtrip_lemma. Qed.
-Print Assumptions attrs_roundtrip_partial.
-
-Theorem attrs_roundtrip_names_refuted : exists d,
-  forallb (fun kv => not_safe (snd kv)) d = true /\ parse_attrs (attributes_to_string d) <> Parsed (expected d).
-Proof. exact attrs_roundtrip_names_refuted_lemma. Qed.
-Print Assumptions attrs_roundtrip_names_refuted.
-
-(* The same statement at full strength - whatever the names contain - for attributes_to_string WITH the
-   proposed repair (refuse names that cannot be attribute names; notes/fixes/C13-refuse-invalid-attr-names.patch):
-   either nothing is emitted because an emitted attribute's name is not writable, or the text reads back exactly. *)
-Theorem attrs_roundtrip_strict : forall d, forallb (fun kv => not_safe (snd kv)) d = true ->
-  match attributes_to_string_strict d with
+(* ROUND TRIP, for ALL names and ALL value strings (no premise on the names: the model's own name check, the one
+   attributes_to_string performs, decides).  For every dictionary in which nothing that is emitted is marked safe:
+   either attributes_to_string raises ValueError, and then some attribute that would be emitted has a name that is
+   empty or contains a character of the forbidden class; or the HTML attribute tokenizer reads the emitted text back
+   as exactly the given names (ASCII-lower-cased, as HTML reads names) and values, in order, each once - None / False
+   attributes absent, True attributes bare, nothing ends the tag early, no quoted value left open ([Parsed], not
+   [BrokeOut] / [Unterminated]). *)
+Theorem attrs_roundtrip : forall d, plain_emitted d = true ->
+  match attributes_to_string d with
   | Some out => parse_attrs out = Parsed (expected d)
-  | None => exists k v, In (k, v) d /\ rendered v = true /\ valid_name k = false
+  | None => exists n v, In ((n, false), v) d /\ rendered v = true /\ valid_name n = false
   end.
-Proof. exact attrs_roundtrip_strict_lemma. Qed.
-Print Assumptions attrs_roundtrip_strict.
+Proof. exact attrs_roundtrip_lemma. Qed.
+Print Assumptions attrs_roundtrip.
 
-(* No value can change the number or the names of the attributes: two dictionaries with the same names and
-   the same kinds of values (omitted / bare / valued) read back with the same names, whatever the values. *)
+(* REFUSAL, for every dictionary (safe entries or not): ValueError exactly when some attribute that would be emitted
+   (value neither None nor False) has a key that is not a SafeString and whose name is not writable. *)
+Theorem attrs_refused_iff : forall d,
+  attributes_to_string d = None <->
+  exists n v, In ((n, false), v) d /\ rendered v = true /\ valid_name n = false.
+Proof. exact attrs_refused_iff_lemma. Qed.
+Print Assumptions attrs_refused_iff.
+
+(* The check is needed (this is what the code did before c3ea7ff): the text built WITHOUT the name check does not
+   read back for the name "a b". *)
+Theorem unchecked_names_refuted : exists d,
+  plain_emitted d = true /\ parse_attrs (ats_text d) <> Parsed (expected d).
+Proof. exact unchecked_names_do_not_roundtrip. Qed.
+Print Assumptions unchecked_names_refuted.
+
+(* No value can change the number or the names of the attributes, or get out of the tag: two dictionaries with the
+   same keys and the same kinds of values (omitted / bare / valued) are both refused or both emitted, and when
+   emitted both read back completely, with the same names and the same number of attributes - whatever the values. *)
 Theorem cannot_break_out : forall d d',
-  roundtrip_guard d = true -> roundtrip_guard d' = true -> map shape d = map shape d' ->
-  exists l l', parse_attrs (attributes_to_string d) = Parsed l /\
-               parse_attrs (attributes_to_string d') = Parsed l' /\
-               map fst l = map fst l' /\ length l = length l'.
+  plain_emitted d = true -> plain_emitted d' = true -> map shape d = map shape d' ->
+  match attributes_to_string d, attributes_to_string d' with
+  | Some out, Some out' =>
+      exists l l', parse_attrs out = Parsed l /\ parse_attrs out' = Parsed l' /\
+                   map fst l = map fst l' /\ length l = length l'
+  | None, None => True
+  | _, _ => False
+  end.
 Proof. exact cannot_break_out_lemma. Qed.
 Print Assumptions cannot_break_out.
 
-(* MERGE ORDER, every overlap pattern of names across defaults / attrs / extra keywords (string values; appending
-   to or from a non-string is a TypeError in the model and the statement is silent on it): one entry per name;
-   its text is the value from `attrs` if it has the name, else from `defaults`, followed by every extra keyword
-   value for that name, joined by single spaces; names occurring nowhere are absent. *)
+(* None / False omitted, True bare - in terms of what the reader finds in the emitted text. *)
+Theorem none_false_omitted_true_bare : forall d out,
+  plain_emitted d = true -> attributes_to_string d = Some out ->
+  exists l, parse_attrs out = Parsed l /\
+    length l = length (filter (fun kv => rendered (snd kv)) d) /\
+    (forall n, In (n, None) l <-> exists k, In (k, VTrue) d /\ n = map lower_ascii (fst k)) /\
+    (forall n t, In (n, Some t) l <->
+                 exists k v, In (k, v) d /\ valued v = true /\ n = map lower_ascii (fst k) /\ t = text_of v).
+Proof. exact omitted_bare_lemma. Qed.
+Print Assumptions none_false_omitted_true_bare.
+
+(* ---------- merge order ---------- *)
+
+(* HtmlAttrsNode.render on two dictionaries and the extra keywords - every overlap pattern of names, every kind of
+   value: one entry per name, holding [merged_value] of (the value from `attrs` if it has the name, else the one from
+   `defaults`) followed by every extra keyword value of that name: nothing / the single value itself (None, False,
+   True keep their meaning) / all of them joined by single spaces.  TypeError exactly when, for some name, two or
+   more values would be joined and one of them is not a string. *)
 Theorem merge_order : forall attrs defaults kwargs,
-  all_strv attrs -> all_strv defaults -> all_strv kwargs ->
-  exists d, append_attributes (dupdate (dupdate [] defaults) attrs ++ kwargs) [] = Some d /\
-            html_attrs attrs defaults kwargs = Some (attributes_to_string d) /\
-            keys_nodup d /\
-            forall k, option_map text_of (dget k d)
-                      = joined (match (match dget k (rev attrs) with Some v => Some v | None => dget k (rev defaults) end)
-                                with Some v => [text_of v] | None => [] end ++ texts_for k kwargs).
+  match html_attrs_dict attrs defaults kwargs with
+  | Some d => keys_nodup d /\
+              forall k, merged_value (olist (base_val attrs defaults k) ++ occ k kwargs) = Some (dget k d)
+  | None => exists k, merged_value (olist (base_val attrs defaults k) ++ occ k kwargs) = None
+  end.
 Proof. exact merge_order_lemma. Qed.
 Print Assumptions merge_order.
+
+(* The same for string values, in the words of the statement. *)
+Theorem merge_order_strings : forall attrs defaults kwargs,
+  all_strv attrs -> all_strv defaults -> all_strv kwargs ->
+  exists d, html_attrs_dict attrs defaults kwargs = Some d /\ keys_nodup d /\
+            forall k, option_map text_of (dget k d)
+                      = joined (map text_of (olist (base_val attrs defaults k)) ++ map text_of (occ k kwargs)).
+Proof. exact merge_order_strings_lemma. Qed.
+Print Assumptions merge_order_strings.
+
+(* merge_repeated_kwargs on the keywords of the tag, ANY number and ANY pattern of repeats, any [seen] prefix:
+   every name once; each name holds its only value, or the str() of all its values in the order written joined by
+   single spaces ([kw_val]). *)
+Theorem repeated_kwargs_merged : forall kws seen,
+  exists out, merge_repeated seen (map kwp kws) = Some (map kwp out) /\
+              keys_nodup (map kw_entry out) /\
+              (forall k, dget k (map kw_entry out)
+                         = if mem_str k seen then None else kw_val (occ k (map kw_entry kws))).
+Proof. exact merge_repeated_kw. Qed.
+Print Assumptions repeated_kwargs_merged.
+
+(* The whole tag `{% html_attrs attrs defaults k=v ... %}` (both dictionaries positional; any extra keywords that are
+   not aggregate keys - repeated in any pattern, identifiers or not, written in the tag or brought by a spread),
+   through merge_repeated_kwargs, aggregation, the identifier split, binding and rendering: the outcome is the
+   rendering of a dictionary with one entry per name holding [tag_spec], or TypeError exactly when tag_spec fails
+   for some name; no other outcome. *)
+Theorem tag_merge_order : forall a d kws, forallb extra_kw kws = true ->
+  match html_attrs_tag ((None, TD a) :: (None, TD d) :: map kwp kws) with
+  | Out s => exists f, keys_nodup f /\ (forall k, tag_spec a d kws k = Some (dget k f)) /\
+                       attributes_to_string f = Some s
+  | ErrValue => exists f, keys_nodup f /\ (forall k, tag_spec a d kws k = Some (dget k f)) /\
+                          attributes_to_string f = None
+  | ErrType => exists k, tag_spec a d kws k = None
+  | _ => False
+  end.
+Proof. exact tag_merge_order_lemma. Qed.
+Print Assumptions tag_merge_order.
 
 (* ---------- slot content ---------- *)
 
@@ -106,18 +163,46 @@ Proof. exact wrap_css_refuses_iff_lemma. Qed.
 Print Assumptions wrap_css_refuses_iff.
 
 (* ---------- non-vacuity ---------- *)
-Example roundtrip_guard_satisfiable :
-  let d := [([99;108;97;115;115], VStr [34;62;60;39;38;32;61]); ([104;105;100;100;101;110], VTrue);
-            ([120], VNone); ([68;97;116;97;45;88], VObj [53])]%N in
-  roundtrip_guard d = true /\
-  parse_attrs (attributes_to_string d) =
-    Parsed [([99;108;97;115;115], Some [34;62;60;39;38;32;61]); ([104;105;100;100;101;110], None);
-            ([100;97;116;97;45;120], Some [53])]%N.
+(* class with the value dquote > < squote & space = ; hidden=True ; x=None ; Data-X=5 : accepted, and read back *)
+Example roundtrip_accepts :
+  let d := [(([99;108;97;115;115], false), VStr [34;62;60;39;38;32;61]); (([104;105;100;100;101;110], false), VTrue);
+            (([120], false), VNone); (([68;97;116;97;45;88], false), VObj [53])]%N in
+  plain_emitted d = true /\
+  option_map parse_attrs (attributes_to_string d) =
+    Some (Parsed [([99;108;97;115;115], Some [34;62;60;39;38;32;61]); ([104;105;100;100;101;110], None);
+                  ([100;97;116;97;45;120], Some [53])]%N).
 Proof. vm_compute. split; reflexivity. Qed.
 
+(* both outcomes of attrs_roundtrip occur; an invalid name is harmless when its value is None, and when the key
+   object is a SafeString *)
+Example roundtrip_refuses :
+  attributes_to_string [(([97;32;98], false), VStr [118])]%N = None /\
+  attributes_to_string [(([97;9;98], false), VTrue)]%N = None /\
+  attributes_to_string [(([], false), VStr [118])]%N = None /\
+  attributes_to_string [(([97;32;98], false), VNone)]%N = Some [] /\
+  attributes_to_string [(([97;32;98], true), VStr [118])]%N = Some [97;32;98;61;34;118;34]%N.
+Proof. vm_compute. repeat split; reflexivity. Qed.
+
 Example merge_example :
-  html_attrs [([99], VStr [65])]%N [([99], VStr [68]); ([105], VStr [49])]%N [([99], VStr [107]); ([120], VSafe [60])]%N
-  = Some [99;61;34;65;32;107;34;32;105;61;34;49;34;32;120;61;34;60;34]%N.   (* c="A k" i="1" x="<" *)
+  html_attrs [(([99], false), VStr [65])]%N [(([99], false), VStr [68]); (([105], false), VStr [49])]%N
+             [(([99], false), VStr [107]); (([120], false), VSafe [60])]%N
+  = Out [99;61;34;65;32;107;34;32;105;61;34;49;34;32;120;61;34;60;34]%N.   (* c="A k" i="1" x="<" *)
+Proof. reflexivity. Qed.
+
+(* {% html_attrs a d c=x data-i=1 c=y data-i=2 c=z %} with a = {c: A}, d = {c: D, h: True} *)
+Example tag_example :
+  let c := ([99]%N, false) in let di := ([100;97;116;97;45;105]%N, false) in
+  let kws := [(c, true, VStr [120]); (di, false, VStr [49]); (c, true, VStr [121]); (di, false, VStr [50]);
+              (c, true, VStr [122])]%N in
+  forallb extra_kw kws = true /\
+  html_attrs_tag ((None, TD [(c, VStr [65])]) :: (None, TD [(c, VStr [68]); (([104], false), VTrue)]) :: map kwp kws)%N
+  = Out [99;61;34;65;32;120;32;121;32;122;34; 32;104; 32;100;97;116;97;45;105;61;34;49;32;50;34]%N.
+        (* c="A x y z" h data-i="1 2" *)
+Proof. vm_compute. split; reflexivity. Qed.
+
+(* a TypeError case of merge_order: appending to True *)
+Example merge_type_error :
+  html_attrs [] [(([104], false), VTrue)]%N [(([104], false), VStr [120])]%N = ErrType.
 Proof. reflexivity. Qed.
 
 Example slot_chain_example :
